@@ -475,6 +475,8 @@ class STensor:
         key = list(key)
         # tensor-valued integer index (0-d) -> int
         for i, k in enumerate(key):
+            if hasattr(k, "cls") and hasattr(k, "value") and isinstance(getattr(k, "value"), int):
+                key[i] = k = k.value  # IntEnum member used as index
             if isinstance(k, STensor):
                 if k.dtype is BOOL or k.numel() != 1:
                     raise Unsupported("advanced (tensor) indexing")
